@@ -221,6 +221,11 @@ class _MatchToIf(ast.NodeTransformer):
         if isinstance(pat, ast.MatchValue):
             return ast.Compare(left=copy.deepcopy(subj), ops=[ast.Eq()], comparators=[pat.value]), []
         if isinstance(pat, ast.MatchSingleton):
+            if isinstance(subj, ast.Call) and isinstance(subj.func, ast.Name) and subj.func.id == "bool" and \
+                    len(subj.args) == 1 and not subj.keywords and pat.value in (True, False):
+                # bool(x) is True / is False as a branch condition is the truth of x / of not x
+                inner = copy.deepcopy(subj.args[0])
+                return (inner if pat.value else ast.UnaryOp(op=ast.Not(), operand=inner)), []
             return ast.Compare(left=copy.deepcopy(subj), ops=[ast.Is()], comparators=[ast.Constant(value=pat.value)]), []
         if isinstance(pat, ast.MatchOr):
             if all(isinstance(q, ast.MatchValue) for q in pat.patterns):
@@ -230,6 +235,20 @@ class _MatchToIf(ast.NodeTransformer):
             if any(b for _, b in parts) or any(c is None for c, _ in parts):
                 raise ValueError
             return ast.BoolOp(op=ast.Or(), values=[c for c, _ in parts]), []
+        if isinstance(pat, ast.MatchSequence):
+            # case (2, _): on a subject written as a display (a, b): element-wise conditions
+            if not isinstance(subj, (ast.Tuple, ast.List)) or len(subj.elts) != len(pat.patterns) or \
+                    any(isinstance(q, ast.MatchStar) for q in pat.patterns):
+                raise ValueError
+            conds, binds = [], []
+            for e_, q in zip(subj.elts, pat.patterns):
+                c_, b_ = self._cond(e_, q)
+                if c_ is not None:
+                    conds.append(c_)
+                binds += b_
+            if not conds:
+                return None, binds
+            return (conds[0] if len(conds) == 1 else ast.BoolOp(op=ast.And(), values=conds)), binds
         if isinstance(pat, ast.MatchAs):
             if pat.pattern is None:
                 binds = [] if pat.name is None else [
@@ -243,7 +262,21 @@ class _MatchToIf(ast.NodeTransformer):
         self.generic_visit(node)
         pre = []
         subj = node.subject
-        if not isinstance(subj, (ast.Name, ast.Constant)):
+        if isinstance(subj, (ast.Tuple, ast.List)) and all(isinstance(c.pattern, (ast.MatchSequence, ast.MatchAs)) for c in node.cases):
+            # match (a, b): the elements are named once, the display stays a display for the sequence patterns
+            elts = []
+            for e_ in subj.elts:
+                pure_bool = isinstance(e_, ast.Call) and isinstance(e_.func, ast.Name) and e_.func.id == "bool" and \
+                    len(e_.args) == 1 and not e_.keywords and not any(isinstance(n_, ast.Call) for n_ in ast.walk(e_.args[0]))
+                if isinstance(e_, (ast.Name, ast.Constant)) or pure_bool:
+                    elts.append(e_)
+                else:
+                    self.n += 1
+                    tmp = f"match_subject_{self.n}__"
+                    pre.append(ast.Assign(targets=[ast.Name(id=tmp, ctx=ast.Store())], value=e_))
+                    elts.append(ast.Name(id=tmp, ctx=ast.Load()))
+            subj = ast.Tuple(elts=elts, ctx=ast.Load())
+        elif not isinstance(subj, (ast.Name, ast.Constant)):
             self.n += 1
             tmp = f"match_subject_{self.n}__"
             pre.append(ast.Assign(targets=[ast.Name(id=tmp, ctx=ast.Store())], value=subj))
@@ -1206,6 +1239,12 @@ class Program:
 
     def func(self, qual: str) -> FuncInfo:
         fi = self.functions.get(qual)
+        if fi is None and qual.count(".") >= 2:
+            # module.Class.method: the implementation the class resolves the name to (its own, or one inherited from a
+            # base class or a mixin it was moved to)
+            cq, meth = qual.rsplit(".", 1)
+            if cq in self.classes:
+                fi = self.lookup_method(cq, meth)
         if fi is None:
             raise AnalysisError(f"anchor function {qual} not found")
         return fi
